@@ -93,7 +93,7 @@ def run_case(ctx, case, model=True):
     if e_acc is not None:
         if len(e_acc) != len(p) + 1 or e_acc[0] != 0:
             ctx.fail("predicate", "acc-shape", f"accumulated series {e_acc} for {len(p)} samples", where)
-        elif not close(e_acc[-1], e, scale=abs(e)) or not close(soc_acc[-1], soc):
+        elif not close(e_acc[-1], e, scale=float(np.dot(np.abs(p), dts))) or not close(soc_acc[-1], soc):
             ctx.fail("predicate", "acc-last", f"last accumulated {e_acc[-1]} vs total {e}", where)
     terminal = float(np.dot(p, dts))
     if e > terminal + 1e-9 * max(1.0, abs(terminal), float(np.dot(np.abs(p), dts))):
